@@ -1,7 +1,7 @@
 """C12 — Results are plain self-contained data and evaluation is deterministic."""
 from ..sqlgen import *  # noqa
 from ..qcheck import mk_case, run_cases, go_req
-from ..common import dec_val, run_go, canon, as_multiset, enc_val
+from ..common import dec_val, run_go, canon, as_multiset, enc_val, load_findings
 from . import c02, c03, c04, c05, c06, c07, c08
 
 MODULE = "Genql.Properties.C12"
@@ -55,6 +55,8 @@ def probes(rnd):
         ("exists-derived", "SELECT a FROM t WHERE EXISTS (SELECT * FROM (SELECT * FROM items) z)"),
         ("in-derived-dual", "SELECT a FROM t WHERE a IN (SELECT a FROM (SELECT * FROM dual) z)"),
         ("where-subq-star", "SELECT * FROM t WHERE a IN (SELECT x FROM items)"),
+        ("in-two-columns", "SELECT a FROM t WHERE a IN (SELECT x, x + 1 AS y FROM items)"),
+        ("in-star", "SELECT a FROM t WHERE a IN (SELECT * FROM `<-meta`)"),
         ("join-star-subq", "SELECT *, (SELECT * FROM dual) AS d FROM t x JOIN t y ON x.a = y.a"),
         # ASYNC select items in every statement position: the slot must be resolved wherever the row travels
         ("async-union", "SELECT ASYNC.VF_SLOW('t', a) AS v FROM t UNION ALL SELECT ASYNC.VF_SLOW('t', a + 1) AS v FROM t"),
@@ -72,6 +74,11 @@ def probes(rnd):
         # digests / encodings are functions of their arguments only (not of what was hashed before in this process)
         ("hash", "SELECT HASH(s, 'sha256') AS h, HASH(a, 'md5') AS m, HASH(s, 'sha1') AS g FROM t"),
         ("encode", "SELECT ENCODE(s, 'base64') AS e, ENCODE(a, 'hex') AS x FROM t"),
+        # ASYNC under DISTINCT / ORDER BY / UNION (repair D51), and nested in other calls (known finding KF-async-nested)
+        ("async-distinct", "SELECT DISTINCT ASYNC.VF_SLOW('t', s) AS v FROM t"),
+        ("async-order", "SELECT ASYNC.VF_SLOW('t', a) AS v, s FROM t ORDER BY v DESC"),
+        ("async-nested-concat", "SELECT CONCAT(ASYNC.VF_SLOW('t', a), 'x') AS w FROM t"),
+        ("async-nested-array", "SELECT ARRAY(ASYNC.VF_SLOW('t', a), 1) AS w FROM t"),
     ]
     out = []
     for tag, sql in forms:
@@ -85,6 +92,18 @@ def has_marker(v):
         return "<-" in v or any(has_marker(x) for x in v.values())
     if isinstance(v, list):
         return any(has_marker(x) for x in v)
+    return False
+
+
+def known_probe(chk, c, kind, detail):
+    """a probe listed under a `finding:` entry of KNOWN_FINDINGS.txt (probes=tag,tag) is reported as that finding"""
+    tag = (c.get("tag") or "")
+    if not tag.startswith("probe:"):
+        return False
+    for f in load_findings():
+        if f.get("property") == "C12" and tag[len("probe:"):] in (f.get("probes") or "").split(","):
+            chk.add_known(f.get("id", "?"), "%s on %s" % (kind, c["sql"]))
+            return True
     return False
 
 
@@ -121,11 +140,15 @@ def explore(chk, rnd, tier):
                 chk.add_violation("crash", {"sql": c["sql"], "doc": c["doc"], "first": a, "second": b})
                 break
             if a.get("r") != b.get("r"):
+                if known_probe(chk, c, "nondeterministic-outcome", None):
+                    continue
                 chk.add_violation("nondeterministic-outcome", {"sql": c["sql"], "doc": c["doc"], "first": a, "second": b})
                 break
             if a.get("r") != "ok":
                 continue
             if a.get("nonPlain"):
+                if known_probe(chk, c, "non-plain-value", None):
+                    continue
                 chk.add_violation("non-plain-value", {"sql": c["sql"], "doc": c["doc"], "types": a["nonPlain"], "result": a})
                 break
             va, vb = dec_val(a["v"]), dec_val(b["v"])
@@ -133,6 +156,8 @@ def explore(chk, rnd, tier):
                 chk.add_violation("marker-key-in-result", {"sql": c["sql"], "doc": c["doc"], "result": a})
                 break
             if as_multiset(va) != as_multiset(vb) or (c.get("seq") and canon(va) != canon(vb)):
+                if known_probe(chk, c, "nondeterministic-result", None):
+                    continue
                 chk.add_violation("nondeterministic-result", {"sql": c["sql"], "doc": c["doc"], "first": a, "second": b})
                 break
             if (c.get("tag") or "").startswith("probe:") or "AS k" in c["sql"] or "calc" in c["sql"]:
